@@ -18,8 +18,11 @@ On_(p) == Prop = p \/ Prop = "ALL"
 Backends(r) == {<<"py", r.py, r.py2>>, <<"c", r.c, r.c2>>}
 
 \* clause name -> holds?     (names are Cxx.<clause>/<backend>)
+\* very long inputs (8 KiB boundary records): only the non-recursive clause is evaluated
+Long(r) == Len(r.in) > 400
 Checks(r) ==
-  IF r.kind = "quote" THEN
+  IF Long(r) THEN (IF On_("C05") THEN {<<"C05.same", TRUE, r.py = r.c>>} ELSE {})
+  ELSE IF r.kind = "quote" THEN
      UNION { LET be == b[1] o == b[2] o2 == b[3] IN
        IF ~IsOk(o) THEN {}
        ELSE (IF On_("C01") THEN {<<"C01.wellformed/" \o be, TRUE, QC_WellFormed(r.name, o.ok)>>} ELSE {})
@@ -38,7 +41,8 @@ Checks(r) ==
 
 \* Level I prediction, for the drift measure (never a verdict)
 Agrees(r) ==
-  IF r.kind = "quote" THEN
+  IF Long(r) THEN TRUE
+  ELSE IF r.kind = "quote" THEN
        /\ (IsOk(r.py) => r.py.ok = QuotePy(QuoterCfg(r.name), r.in))
        /\ (IsOk(r.c)  => r.c.ok  = QuoteC(QuoterCfg(r.name), r.in))
   ELSE /\ (IsOk(r.py) => r.py.ok = Unquote(UnquoterCfg(r.name), r.in))
@@ -46,7 +50,7 @@ Agrees(r) ==
 
 \* deviation triggers, for attribution of a failing record to a known finding
 Attribution(r) ==
-  IF r.kind = "quote" /\ HasSurrogate(r.in) /\ IsOk(r.py) /\ IsOk(r.c)
+  IF r.kind = "quote" /\ ~Long(r) /\ HasSurrogate(r.in) /\ IsOk(r.py) /\ IsOk(r.c)
      /\ LET cfg == QuoterCfg(r.name) IN
           /\ QOut(cfg, r.in, 1) # QOut(cfg, DropSurrogates(r.in), 1)     \* trigger: the order matters
           /\ r.py.ok = QOut(cfg, DropSurrogates(r.in), 1)                \* observed = deviant prediction
